@@ -314,3 +314,21 @@ Definition spec_decode (s : list N) (num : N) (want : bool) : N * option N :=
         (k + 1, if want then Some (low + payload b k * 64 ^ k) else None)
       end
   end.
+
+(* ------------------------------------------------------------------ vocabulary of the theorems *)
+
+Definition bytes_ok (s : list N) : Prop := Forall (fun b => b < 256) s.
+
+(* walk s num c k : starting at s with num bytes left, a_utf_decode (val == NULL) reports c positive
+   lengths r1 .. rc, each at the position reached by the previous ones, and then reports 0;
+   k = r1 + .. + rc.  (What a_utf_length is specified to compute.) *)
+Inductive walk : list N -> N -> N -> N -> Prop :=
+| walk_stop s num v :
+    decode s num false = DRet 0 v -> walk s num 0 0
+| walk_step s num r v c k :
+    decode s num false = DRet r v -> 0 < r ->
+    walk (skipn (N.to_nat r) s) (num - r) c k ->
+    walk s num (c + 1) (k + r).
+
+Definition valid_cp (x : N) : Prop := 0 < x < 2147483648.
+Definition encode_all (xs : list N) : list N := flat_map utf8_table xs.
